@@ -2,7 +2,9 @@
 """Sensitivity self-test of the machinery: apply every stored seeded change to a scratch copy of /repo's working tree and
 run the check(s) recorded as catching it (quick tier, VERIF_SEED as given).  /repo itself is never touched.
 
-usage: selftest_seeded.py [-j N] [--seed S] [pattern]      pattern: substring of the seeded directory name, e.g. C05 or r2
+usage: selftest_seeded.py [-j N] [--seed S] [--own] [--update] [pattern]
+       pattern: substring of the seeded directory name, e.g. C05 or r2
+       --own: run the property's OWN check first (then the recorded cross-checks); --update: record the outcome in meta.json
 
 Prints one line per change and a summary; exit 0 iff every change is reported (exit 1 + VIOLATION) by at least one of its
 recorded checks.  This is a development tool, not a registered check."""
@@ -18,10 +20,15 @@ VERIF = os.path.dirname(os.path.dirname(os.path.abspath(__file__)))
 REPO = os.environ.get("VERIF_REPO", "/repo")
 
 
+OWN = UPDATE = False
+
+
 def run_one(name, seed):
     d = os.path.join(VERIF, "seeded", name)
     meta = json.load(open(os.path.join(d, "meta.json")))
     checks = [k.split(":")[0] for k, v in meta.get("checks", {}).items() if v.get("rc") == 1] or [meta["property"]]
+    if OWN:
+        checks = [meta["property"]] + [c for c in checks if c != meta["property"]]
     scratch = tempfile.mkdtemp(prefix="st-%s-" % name, dir="/dev/shm")
     try:
         for sub in ("c/lib", "c/include", "python/lib", "python/digital_rf"):
@@ -38,6 +45,11 @@ def run_one(name, seed):
             sig = [ln.strip()[10:90] for ln in p.stdout.splitlines() if ln.strip().startswith("signature=")]
             out.append((c, p.returncode, sig[0] if sig else ""))
             if p.returncode == 1:
+                if UPDATE:
+                    meta.setdefault("checks", {})["%s:quick" % c] = {"rc": 1, "signatures": sig[:4], "seed": seed}
+                    meta["caught"] = True
+                    with open(os.path.join(d, "meta.json"), "w") as f:
+                        json.dump(meta, f, indent=1)
                 return name, "CAUGHT", "%s: %s" % (c, sig[0] if sig else "")
         return name, "MISSED", "; ".join("%s rc=%d" % (c, rc) for c, rc, _ in out)
     finally:
@@ -46,6 +58,7 @@ def run_one(name, seed):
 
 def main():
     args = sys.argv[1:]
+    global OWN, UPDATE
     jobs, seed, pat = 4, 1, ""
     while args:
         a = args.pop(0)
@@ -53,6 +66,10 @@ def main():
             jobs = int(args.pop(0))
         elif a == "--seed":
             seed = int(args.pop(0))
+        elif a == "--own":
+            OWN = True
+        elif a == "--update":
+            UPDATE = True
         else:
             pat = a
     names = sorted(n for n in os.listdir(os.path.join(VERIF, "seeded")) if pat in n)
